@@ -57,6 +57,10 @@ type travUnit struct {
 	hostSwitch ast.Stmt
 	// predicate: the body handling this kind is a single `return <const>`
 	soleReturn string
+	// rejects: the clause is a single `return <constructor call from another package>`: the
+	// construct is refused at run time with a freshly built interrupt/error (a fragment
+	// boundary of this engine), so its children are legitimately not evaluated
+	rejects bool
 	ifc        *types.Named // dispatch units: the interface dispatched on
 }
 
@@ -440,6 +444,7 @@ func (r *travRun) enumerate() []*travUnit {
 						}
 						if len(d.kinds[cc]) >= 1 {
 							u.soleReturn = travSoleReturn(cc.Body)
+							u.rejects = travRejects(p, cc.Body)
 						}
 						units = append(units, u)
 					}
@@ -591,6 +596,37 @@ func (tc *travCollector) collectShallow(sc travScope) *travReads {
 		tc.active[fn] = true
 	}
 	return tc.collect(sc)
+}
+
+// travRejects: body is exactly `return pkg.Constructor(...)` with the constructor declared
+// in another package of the module and returning a pointer (an interrupt / error value).
+func travRejects(p *packages.Package, body []ast.Stmt) bool {
+	if len(body) != 1 {
+		return false
+	}
+	rs, ok := body[0].(*ast.ReturnStmt)
+	if !ok || len(rs.Results) == 0 {
+		return false
+	}
+	call, ok := ast.Unparen(rs.Results[len(rs.Results)-1]).(*ast.CallExpr)
+	if !ok {
+		return false
+	}
+	fn := CalleeOf(p.TypesInfo, call)
+	if fn == nil || fn.Pkg() == nil || fn.Pkg() == p.Types || !strings.HasPrefix(fn.Pkg().Path(), ModPath) {
+		return false
+	}
+	sig := fn.Type().(*types.Signature)
+	if sig.Recv() != nil || sig.Results().Len() != 1 {
+		return false
+	}
+	_, isPtr := sig.Results().At(0).Type().(*types.Pointer)
+	for _, r := range rs.Results[:len(rs.Results)-1] {
+		if id, ok := ast.Unparen(r).(*ast.Ident); !ok || id.Name != "nil" {
+			return false
+		}
+	}
+	return isPtr
 }
 
 func travSoleReturn(body []ast.Stmt) string {
@@ -911,6 +947,10 @@ func (r *travRun) decide(u *travUnit, absorb map[string]string, loopPred map[str
 				}
 				if need == 1 {
 					infos = append(infos, fmt.Sprintf("%s.%s (%s%s) unread", s.Short(), f.Name, f.Class, map[bool]string{true: ", analysis result", false: ""}[f.Derived]))
+					continue
+				}
+				if u.rejects && u.role != rolePrint && u.role != rolePredicate {
+					infos = append(infos, fmt.Sprintf("%s.%s unread: the clause refuses the construct with a freshly built interrupt (fragment boundary of this engine)", s.Short(), f.Name))
 					continue
 				}
 				ob.Status = Violated
